@@ -228,8 +228,8 @@ end SecsModel.Model.Wedge
 receiver thread of `TcpConnection` (`_start_receiver`, `disconnect`, `__receiver_thread`) as far as the handshakes need it.  Every busy
 wait (`while flag: time.sleep(0.2)`, `while self._thread_running: pass`) is modelled as a blocking wait: the step is enabled exactly when
 the loop would be left, so a state in which the application thread has no enabled step and nobody can enable it is a hang.
-`fixed = true` is the handshake with the patch proposed in `proposals/C09-tcp-disable-hang.diff`
-(`while flag and thread.is_alive()`, flag reset by the waiter); the code that exists is `fixed = false`.
+`fixed = true` is the code that exists (`/repo` HEAD, repair 1a14b53: `while flag and thread.is_alive()`, flag reset by the waiter, `continue`
+after a failed `select`/`accept`); `fixed = false` is the handshake before that repair, kept for the regression witnesses (F-13).
 The close sequence of the receiver thread is one step here: that it terminates is `Props.C09.close_completes_partial`.
 -/
 namespace SecsModel.Model.TcpStop
